@@ -8,7 +8,7 @@
    chain looks at (incoming for "from" chains, outgoing for "to" chains);
    `names_ok wc names` says every name is non-empty and does not end in the wildcard byte. *)
 From Coq Require Import List NArith Bool Arith.
-From Verif.C10 Require Import Nf Model Spec Proofs MapsModel MapsSpec MapsProofs.
+From Verif.C10 Require Import Nf Model Spec Proofs MapsModel MapsSpec MapsProofs MapsInv.
 Import ListNotations.
 Open Scope N_scope.
 
@@ -138,23 +138,74 @@ Print Assumptions c10_trailing_wildcard_refuted.
    abstract kernel table whose transactions fail atomically).  `synced s kn`: every desired map exists in the
    kernel kn and holds exactly its desired members. *)
 
-(* PARTIAL statement of "after any history, once Apply() succeeds the kernel's dispatch map equals the desired
-   mapping": proved here for every Apply() that went through the table-recreate stage (>= 6 failed
-   transactions), for ANY state of the cached views and ANY kernel contents before it, any further
-   failures, no hypothesis.  This is the path in which InvalidateMapsCache matters.
-   MISSING: the same conclusion for an Apply() that succeeds within its first 6 attempts (the incremental
-   path).  That needs the invariant "member tracker's dataplane view = kernel contents, programmed-metadata
-   view <= kernel maps, out-of-sync desired maps are dirty or not in the metadata view" carried through
-   AddOrReplaceMap, the three outcomes of LoadDataplaneState and FinishMapUpdates, under the hypotheses that
-   the kernel table is changed only by Felix's transactions and starts without maps; it is covered by the
-   correspondence run + oracle only. *)
-Theorem c10_maps_sync_exact_partial : forall retries ts kn sc runs loads,
+(* FULL STRENGTH.  `reach ts kn` (MapsInv.v): the states Felix can be in - the kernel starts without the table,
+   dispatch maps are set with AddOrReplaceMap(DispatchMappings(names)), Apply() is called under arbitrary
+   schedules of failed transactions, failed ListAll and failed element listings, and returns.  The two
+   hypotheses are built into `reach`: (1) the kernel table changes only through Felix's own transactions,
+   which apply atomically or not at all; (2) it starts absent (no maps).  Conclusion: whenever Apply() returns
+   - within its first attempts or after a table recreate - every desired dispatch map is in the kernel with
+   exactly its desired members, and the desired state is the one Apply() was called with.
+   Proof: invariant TINV (member-tracker dataplane view = kernel contents, duplicate free; programmed-metadata
+   view <= kernel maps; an out-of-sync desired map is dirty or absent from the metadata view; the table exists
+   when the hash cache is non-empty) carried through AddOrReplaceMap, all outcomes of LoadDataplaneState
+   (ListAll fails / an element listing fails / success), InvalidateMapsCache, the transaction and
+   FinishMapUpdates, and the retry loop.  A by-product (tx_core): from such a state the transaction never fails
+   on its own, only by injected failure. *)
+Theorem c10_maps_sync_exact : forall ts kn sc, reach ts kn ->
+  a_ok (apply_table ts kn sc) = true ->
+  synced (t_m (a_ts (apply_table ts kn sc))) (a_kn (apply_table ts kn sc)) /\
+  same_des_on (t_m (a_ts (apply_table ts kn sc))) (t_m ts).
+Proof. exact maps_sync_exact. Qed.
+Print Assumptions c10_maps_sync_exact.
+
+(* The same from ANY state in which the invariant holds, and the invariant is re-established ... *)
+Theorem c10_maps_sync_exact_from_invariant : forall ts kn sc, TINV ts kn -> t_recreate ts = false ->
+  a_ok (apply_table ts kn sc) = true ->
+  synced (t_m (a_ts (apply_table ts kn sc))) (a_kn (apply_table ts kn sc)) /\
+  same_des_on (t_m (a_ts (apply_table ts kn sc))) (t_m ts) /\
+  TINV (a_ts (apply_table ts kn sc)) (a_kn (apply_table ts kn sc)).
+Proof. exact maps_sync_exact_from_inv. Qed.
+Print Assumptions c10_maps_sync_exact_from_invariant.
+
+(* ... which is what an ARBITRARY starting table needs: the Maps part of a resync whose listings all succeed
+   establishes the views-agree invariant whatever the kernel holds (each map lists a key once) and whatever
+   the cached views were.  (Before the first such resync nothing is claimed: a leftover table plus a failed
+   element listing on the very first resync is outside these theorems.) *)
+Theorem c10_maps_resync_establishes_invariant : forall s kn, WINV s kn ->
+  let s3 := fold_left load_unseen all_kinds (fold_left (load_one kn) (klisted kn)
+              {| ms_all := ms_all s; ms_progdp := kempty; ms_trk := ms_trk s; ms_dirty := ms_dirty s |}) in
+  MINV s3 kn /\ WINV s3 kn /\ same_des_on s3 s.
+Proof. exact resync_establishes. Qed.
+Print Assumptions c10_maps_resync_establishes_invariant.
+
+(* Composed corollary: after any reachable history, when Apply() returns, the nftables workload dispatch chain
+   evaluated over the KERNEL's verdict map sends every known interface to its own chain and drops the rest. *)
+Theorem c10_maps_history_dispatch_exact : forall ts kn sc k names pk, reach ts kn ->
+  ms_all (t_m ts) k = true ->
+  (forall x, In x (tr_des (get_or_create (t_m ts) k)) <-> In x names) ->
+  a_ok (apply_table ts kn sc) = true ->
+  let kn' := a_kn (apply_table ts kn sc) in
+  khas kn' k = true /\
+  eval 42 (vmap_ruleset k (map (fun n => (n, AGoto (CEp k n))) (sort_names (kelems kn' k)))) pk (CRoot k) =
+  spec_workload false k names (pkt_if (kind_dir k) pk).
+Proof. exact maps_history_dispatch_exact. Qed.
+Print Assumptions c10_maps_history_dispatch_exact.
+
+(* AddOrReplaceMap(k, DispatchMappings(names)) makes `names` the desired content of map k (premise of the corollary). *)
+Theorem c10_maps_set_desired : forall ts k names,
+  ms_all (t_m (set_map ts k names)) k = true /\
+  forall x, In x (tr_des (get_or_create (t_m (set_map ts k names)) k)) <-> In x names.
+Proof. exact set_map_desired. Qed.
+Print Assumptions c10_maps_set_desired.
+
+(* The recreate stage on its own needs no invariant at all (any cached state, any kernel contents). *)
+Theorem c10_maps_recreate_loop : forall retries ts kn sc runs loads,
   (retries < 6)%nat -> t_recreate ts = true -> t_insync ts = true ->
   a_ok (apply_loop retries ts kn sc runs loads) = true ->
   synced (t_m (a_ts (apply_loop retries ts kn sc runs loads))) (a_kn (apply_loop retries ts kn sc runs loads))
   /\ same_desired (t_m (a_ts (apply_loop retries ts kn sc runs loads))) (t_m ts).
 Proof. exact apply_loop_recreate. Qed.
-Print Assumptions c10_maps_sync_exact_partial.
+Print Assumptions c10_maps_recreate_loop.
 
 (* One successful recreate transaction: every desired map is back WITH all its members. *)
 Theorem c10_maps_recreate_restores_desired : forall ts kn sc ts' kn' sc',
